@@ -14,11 +14,11 @@ use std::sync::atomic::{AtomicU64, Ordering};
 pub fn num_cases(ctx: &Ctx) -> u64 {
     match (ctx.mode, ctx.tier) {
         (Mode::Miri, _) => 6,
-        (Mode::Tsan, Tier::Quick) => 300,
-        (Mode::Tsan, Tier::Thorough) => 3000,
+        (Mode::Tsan, Tier::Quick) => 160,
+        (Mode::Tsan, Tier::Thorough) => 1500,
         (Mode::Asan, _) => 600,
-        (Mode::Native, Tier::Quick) => 16_000,
-        (Mode::Native, Tier::Thorough) => 150_000,
+        (Mode::Native, Tier::Quick) => 6_000,
+        (Mode::Native, Tier::Thorough) => 60_000,
     }
 }
 
@@ -208,9 +208,9 @@ pub fn run_case(ctx: &mut Ctx, idx: u64) {
     //     automaton (rebuilt, cloned or restored from bytes — a warmed-up one would hide races in
     //     lazily initialised state), and the threads are released by a spin flag so that their first
     //     searches really overlap.
-    let threads = if ctx.slow() { 3 } else { *rng.pick(&[2usize, 4, 8, 16]) };
+    let threads = if ctx.slow() { 3 } else { *rng.pick(&[2usize, 2, 4, 4, 8, 8, 16]) };
     let ops_per_thread = if ctx.slow() { 3 } else { rng.range(2, 12) };
-    let rounds = if ctx.slow() { 1 } else { 4 };
+    let rounds = if ctx.slow() { 1 } else { 3 };
     let mut all_recs: Vec<OpRec> = Vec::new();
     for round in 0..rounds {
         let fresh: crate::pma::Pma<u32> = match round % 3 {
